@@ -227,6 +227,32 @@ theorem C12_alias_list_refused_iff (nm : Naming) (as : List Alias) :
 example : resolveAlias { n := 2, idOf := fun i => if i = 0 then "n0" else "n1", tagsOf := fun i => if i = 1 then ["n0"] else [] }
     (.name "n0") = some [1] := by decide
 
+/-- C07 / C05 / C06 (reconfiguration): `config_from_dict/yaml/json` as decision logic (`GM.applyConfig`).  An accepted
+    configuration gives every node an entry addresses — through a node id or a tag carried by any number of
+    nodes — exactly the attributes the entry STATES, keeping those it does not state; every other node keeps
+    everything.  The compound priorities after it are `cpAll` of the new priorities (what the driver computes). -/
+theorem C07_configuration_law (nm : Naming) (a a' : Attr) (es : List Entry) (h : applyConfig nm a es = .ok a') :
+    (∀ n e, e ∈ es → (∃ ns, resolveAlias nm e.alias = some ns ∧ n ∈ ns) →
+        a'.prio n = e.prio.getD (a.prio n) ∧ a'.seq n = e.seq.getD (a.seq n)) ∧
+    (∀ x, (∀ e ∈ es, ∀ ns, resolveAlias nm e.alias = some ns → x ∉ ns) → a'.prio x = a.prio x ∧ a'.seq x = a.seq x) :=
+  GM.applyConfig_spec nm a a' es h
+
+/-- reconfiguration: refused exactly when an alias is unknown or some node is addressed twice (ambiguous) -/
+theorem C07_configuration_refused_iff (nm : Naming) (a : Attr) (es : List Entry) :
+    (∃ err, applyConfig nm a es = .error err) ↔
+      (expand nm es = none ∨ ∃ ps, expand nm es = some ps ∧ ¬ (ps.map (·.1)).Nodup) :=
+  GM.applyConfig_refused_iff nm a es
+
+/-- reconfiguration: the same configuration given again changes nothing more -/
+theorem C07_configuration_idempotent (nm : Naming) (a a' : Attr) (es : List Entry) (h : applyConfig nm a es = .ok a') :
+    ∃ a'', applyConfig nm a' es = .ok a'' ∧ (∀ x, a''.prio x = a'.prio x ∧ a''.seq x = a'.seq x) :=
+  GM.applyConfig_idempotent nm a a' es h
+
+-- non-vacuity: two nodes carry the tag "g"; an entry for "g" that states only the priority
+example : ((applyConfig { n := 3, idOf := fun i => s!"n{i}", tagsOf := fun i => if i < 2 then ["g"] else [] }
+      ⟨fun _ => 1, fun i => i == 1⟩ [⟨.name "g", some 9, none⟩]).toOption.map
+        fun a' => (a'.prio 0, a'.prio 1, a'.prio 2, a'.seq 0, a'.seq 1)) = some (9, 9, 1, false, true) := by decide
+
 /-- C13 (flag off): no debug node survives, for every selection. -/
 theorem C13_flag_off_no_debug (g : G) (isDebug : GM.Node → Bool) (sel leaves : List GM.Node) (x : GM.Node)
     (hx : x ∈ extendDebug g isDebug sel leaves false) : isDebug x = false :=
